@@ -50,52 +50,134 @@ Proof.
     rewrite <- app_assoc, <- map_app, firstn_skipn. reflexivity.
 Qed.
 
-(* ---- the AHT agrees with the live chain ---- *)
+(* ---- hash-linked lists of Alh values ---- *)
+Hypothesis H_len : forall x, length (H x) = 32%nat.
+
+(* the Alh before position j of a list of Alh values (hash of the empty string before the first) *)
+Definition prev_of (c : list bytes) (j : nat) : bytes :=
+  match j with O => H [] | S j' => nth j' c [] end.
+
+(* every element is the hash of (its position ‖ its predecessor ‖ something) *)
+Definition linked (c : list bytes) : Prop :=
+  forall j a, nth_error c j = Some a ->
+  exists ih, a = H (be_enc w_txid (N.of_nat j + 1) ++ prev_of c j ++ ih).
+
+Lemma prev_of_len c j : linked c -> (j <= length c)%nat -> length (prev_of c j) = 32%nat.
+Proof.
+  intros Hl L. destruct j as [|j]; cbn [prev_of]; [apply H_len|].
+  destruct (nth_error c j) as [a|] eqn:Hn; [|apply nth_error_None in Hn; lia].
+  rewrite (nth_error_nth _ _ _ Hn). destruct (Hl _ _ Hn) as (ih & ->). apply H_len.
+Qed.
+
+Lemma prev_of_firstn c n j : (j <= n)%nat -> prev_of (firstn n c) j = prev_of c j.
+Proof.
+  intros L. destruct j as [|j]; cbn [prev_of]; [reflexivity|].
+  destruct (nth_error c j) as [a|] eqn:Hn.
+  - rewrite (nth_error_nth _ _ _ Hn). apply nth_error_nth. rewrite nth_error_firstn' by lia. exact Hn.
+  - rewrite (nth_overflow c) by (apply nth_error_None; exact Hn).
+    apply nth_overflow. rewrite firstn_length. apply nth_error_None in Hn. lia.
+Qed.
+
+Lemma linked_firstn c n : linked c -> linked (firstn n c).
+Proof.
+  intros Hl j a Hn.
+  assert (Hj : (j < n)%nat).
+  { assert (j < length (firstn n c))%nat by (apply nth_error_Some; congruence). rewrite firstn_length in H0. lia. }
+  rewrite nth_error_firstn' in Hn by exact Hj. destruct (Hl _ _ Hn) as (ih & E).
+  exists ih. rewrite prev_of_firstn by lia. exact E.
+Qed.
+
+Lemma be_enc_app_inv k v a b a' b' :
+  be_enc k v ++ a ++ b = be_enc k v ++ a' ++ b' -> length a = length a' -> a = a'.
+Proof.
+  intros E L. apply app_inv_head in E. apply (app_inj_len a a' b b' L) in E. tauto.
+Qed.
+
+(* two hash-linked lists of the same length that end in the same value are equal, or a collision *)
+Lemma linked_unique : forall n c c',
+  length c = n -> length c' = n -> linked c -> linked c' -> prev_of c n = prev_of c' n ->
+  c = c' \/ Collision H.
+Proof.
+  induction n as [|n IH]; intros c c' L L' Hl Hl' E.
+  - destruct c, c'; try discriminate. left; reflexivity.
+  - cbn [prev_of] in E.
+    destruct (nth_error c n) as [a|] eqn:Hn; [|apply nth_error_None in Hn; lia].
+    destruct (nth_error c' n) as [a'|] eqn:Hn'; [|apply nth_error_None in Hn'; lia].
+    rewrite (nth_error_nth _ _ _ Hn), (nth_error_nth _ _ _ Hn') in E. subst a'.
+    destruct (Hl _ _ Hn) as (ih & Ea). destruct (Hl' _ _ Hn') as (ih' & Ea').
+    set (x := be_enc w_txid (N.of_nat n + 1) ++ prev_of c n ++ ih) in *.
+    set (x' := be_enc w_txid (N.of_nat n + 1) ++ prev_of c' n ++ ih') in *.
+    destruct (bytes_eq_dec x x') as [Ex|Nx].
+    + assert (Ep : prev_of c n = prev_of c' n).
+      { eapply be_enc_app_inv; [exact Ex|]. rewrite !prev_of_len by (auto; lia). reflexivity. }
+      destruct (IH (firstn n c) (firstn n c')) as [Ef|C]; auto.
+      * rewrite firstn_length. lia.
+      * rewrite firstn_length. lia.
+      * apply linked_firstn; auto.
+      * apply linked_firstn; auto.
+      * rewrite !prev_of_firstn by lia. exact Ep.
+      * left. rewrite <- (firstn_skipn n c), <- (firstn_skipn n c'). rewrite Ef. f_equal.
+        rewrite (skipn_nth_cons _ _ _ Hn), (skipn_nth_cons _ _ _ Hn').
+        rewrite !skipn_all2 by lia. reflexivity.
+    + right. exists x, x'. split; [exact Nx|]. congruence.
+Qed.
+
+(* ---- the AHT agrees with the live chain; every written record embeds the root of its ancestry ---- *)
+Definition Wp (w : wr) : Prop :=
+  let h := r_hdr (w_rec w) in
+  0 < h_bltxid h -> forall c, linked c -> N.of_nat (length c) + 1 = h_id h ->
+  prev_of c (length c) = h_prevalh h ->
+  h_blroot h = mth H (firstn (N.to_nat (h_bltxid h)) c) \/ Collision H.
+
 Record Inv2 (s : state) : Prop := {
   j_aht : firstn (N.to_nat (s_inmem s)) (s_aht s) = map ce_alh (live s);
-  j_root : forall k e w, nth_error (live s) k = Some e -> tl_read (s_txlog s) (ce_off e) = Some w ->
-           0 < h_bltxid (r_hdr (w_rec w)) ->
-           h_blroot (r_hdr (w_rec w)) =
-           mth H (firstn (N.to_nat (h_bltxid (r_hdr (w_rec w)))) (map ce_alh (live s)))
+  j_w : Forall Wp (s_txlog s)
 }.
 
 Lemma live_len s : Inv s -> lenN (live s) = s_inmem s.
-Proof.
+Proof using H.
   intros []. unfold live. rewrite lenN_app, lenN_map, clogC_len by auto. lia.
 Qed.
 
 (* the record located by a live entry: position, id and BlTxID *)
 Lemma live_nth s k e : Inv s -> nth_error (live s) k = Some e ->
   exists w, tl_read (s_txlog s) (ce_off e) = Some w /\ h_id (r_hdr (w_rec w)) = N.of_nat k + 1 /\
-            h_bltxid (r_hdr (w_rec w)) < N.of_nat k + 1 /\ w_end w <= s_ptls s /\ r_alh (w_rec w) = ce_alh e.
-Proof.
+            h_bltxid (r_hdr (w_rec w)) < N.of_nat k + 1 /\ w_end w <= s_ptls s /\ r_alh (w_rec w) = ce_alh e /\
+            h_prevalh (r_hdr (w_rec w)) = last_alh (H []) (firstn k (live s)) /\ wr_wf H w.
+Proof using H.
   intros [] Hn.
-  destruct (chain_nth H _ _ _ _ _ _ _ _ i_chainB Hn) as (w & (R & _ & Hid & _ & Ha) & E).
+  destruct (chain_nth H _ _ _ _ _ _ _ _ i_chainB Hn) as (w & (R & _ & Hid & Hp & Ha) & E).
   exists w. split; [exact R|]. replace (0 + N.of_nat k + 1) with (N.of_nat k + 1) in Hid by lia.
-  split; [exact Hid|]. split; [|split; [exact E|exact Ha]].
+  split; [exact Hid|].
   apply tl_read_some in R. destruct R as [_ Hin]. eapply Forall_forall in i_wf; eauto.
-  destruct i_wf as [_ Hb]. lia.
+  pose proof i_wf as [_ Hb].
+  split; [lia|]. split; [exact E|]. split; [exact Ha|]. split; [exact Hp|exact i_wf].
+Qed.
+
+Lemma last_alh_prev_of p es j : p = H [] -> (j <= length es)%nat ->
+  last_alh p (firstn j es) = prev_of (map ce_alh es) j.
+Proof.
+  intros -> L. destruct j as [|j]; [reflexivity|]. cbn [prev_of].
+  destruct (nth_error es j) as [e|] eqn:Hn; [|apply nth_error_None in Hn; lia].
+  rewrite (last_alh_firstn_succ _ _ _ _ Hn). symmetry. apply nth_error_nth.
+  rewrite nth_error_map, Hn. reflexivity.
+Qed.
+
+Lemma live_linked s : Inv s -> linked (map ce_alh (live s)).
+Proof.
+  intros HI j a Hn. rewrite nth_error_map in Hn.
+  destruct (nth_error (live s) j) as [e|] eqn:He; [|discriminate]. injection Hn as <-.
+  destruct (live_nth s j e HI He) as (w & _ & Hid & _ & _ & Ha & Hp & (Hw & _)).
+  unfold alh_of in Hw. destruct (inner_hash H (r_hdr (w_rec w))) as [ih| |]; cbn [bind] in Hw; try discriminate.
+  exists ih. injection Hw as Hw. rewrite <- Ha, <- Hw, Hid, Hp.
+  rewrite last_alh_prev_of; [reflexivity|reflexivity|].
+  assert (j < length (live s))%nat by (apply nth_error_Some; congruence). lia.
 Qed.
 
 Lemma init_inv2 c : 0 < c_maxactive c -> Inv2 (init H c).
 Proof.
   intros Hm. destruct (pb_new_spec (c_maxactive c) Hm) as (_ & Hl & _).
-  constructor; unfold live, clogC, init; sp; rewrite Hl.
-  - reflexivity.
-  - intros k e w Hn. destruct k; discriminate.
-Qed.
-
-(* Inv2 only depends on the live chain, the tx log reads of its entries, the AHT prefix and inmem *)
-Lemma Inv2_transfer s s' : Inv s -> Inv2 s ->
-  live s' = live s -> s_inmem s' = s_inmem s ->
-  firstn (N.to_nat (s_inmem s)) (s_aht s') = firstn (N.to_nat (s_inmem s)) (s_aht s) ->
-  tl_keep (s_ptls s) s s' -> Inv2 s'.
-Proof.
-  intros HI [Ja Jr] El Ei Ea Kt. constructor.
-  - rewrite El, Ei, Ea. exact Ja.
-  - intros k e w Hn R Hb. rewrite El in *.
-    destruct (live_nth s k e HI Hn) as (w0 & R0 & _ & _ & E0 & _).
-    rewrite (Kt _ _ R0 E0) in R. injection R as <-. eapply Jr; eauto.
+  constructor; unfold live, clogC, init; sp; [rewrite Hl; reflexivity|constructor].
 Qed.
 
 Lemma firstn_app_le {A} n (a b : list A) : (n <= length a)%nat -> firstn n (a ++ b) = firstn n a.
@@ -103,43 +185,47 @@ Proof.
   intros L. rewrite firstn_app. replace (n - length a)%nat with 0%nat by lia. cbn [firstn]. apply app_nil_r.
 Qed.
 
-Lemma locked_inv2 s c stale : Inv s -> Inv2 s -> Inv2 (fst (locked H s c stale)).
+(* a record written by the critical section started in an invariant state has the property *)
+Lemma fresh_write_Wp s w : Inv s -> Inv2 s -> fresh_write H s w -> Wp w.
+Proof.
+  intros HI [Ja _] (Hid & Hp & Hb & Hroot) Hpos c Hl Hlen Hlast.
+  pose proof (live_len s HI) as Hll. pose proof HI as [].
+  assert (Hahtlen : s_inmem s <= lenN (s_aht s)).
+  { apply (f_equal (@length bytes)) in Ja. rewrite firstn_length, map_length in Ja. unfold lenN in *. lia. }
+  rewrite (Hroot Hahtlen Hpos).
+  set (L := map ce_alh (live s)).
+  assert (HL : length L = length c) by (unfold L; rewrite map_length; unfold lenN in Hll; lia).
+  destruct (linked_unique (length c) L c HL eq_refl (live_linked s HI) Hl) as [E|C]; [|left|right; exact C].
+  - rewrite Hlast, Hp, i_ialh, <- HL. unfold L. rewrite map_length.
+    rewrite <- (last_alh_prev_of (H []) (live s) (length (live s)) eq_refl (le_n _)).
+    rewrite firstn_all. reflexivity.
+  - rewrite <- E. unfold L. rewrite <- Ja, firstn_firstn.
+    replace (Nat.min (N.to_nat (h_bltxid (r_hdr (w_rec w)))) (N.to_nat (s_inmem s)))
+      with (N.to_nat (h_bltxid (r_hdr (w_rec w)))) by lia.
+    reflexivity.
+Qed.
+
+Lemma locked_inv2 s c : Inv s -> Inv2 s -> Inv2 (fst (locked H s c)).
 Proof.
   intros HI HJ.
-  destruct (locked_cases H s c stale HI) as (s4 & HI4 & Kc & Kt & Hres & _ & Hfx).
+  destruct (locked_cases H s c HI) as (s4 & HI4 & Kc & Kt & Hres & _ & Hfx & Hw).
+  pose proof HJ as [Ja Jw].
+  assert (HW4 : Forall Wp (s_txlog s4)).
+  { apply Forall_forall. intros w Hin. destruct (Hw w Hin) as [Hold|Hnew].
+    - eapply Forall_forall in Jw; eauto.
+    - apply (fresh_write_Wp s w HI HJ Hnew). }
   assert (HJ4 : Inv2 s4).
-  { destruct Hfx as [(El & Ei & Ea & _)|(pe & w & El & Ei & Hlen & Ea & Rw & Hwa & Hbl & Hroot & _)].
-    - apply (Inv2_transfer s s4 HI HJ El Ei Ea Kt).
-    - pose proof HJ as [Ja Jr]. pose proof (live_len s HI) as Hll.
-      assert (Hflen : length (firstn (N.to_nat (s_inmem s)) (s_aht s)) = N.to_nat (s_inmem s)).
-      { rewrite firstn_length. unfold lenN in Hlen. lia. }
-      constructor.
-      + rewrite Ei, Ea, El, map_app. cbn [map cent ce_alh].
-        rewrite firstn_all2 by (rewrite app_length; cbn [length]; lia).
-        rewrite Ja. reflexivity.
-      + intros k e w' Hn R Hb. rewrite El in Hn |- *.
-        assert (Hk : (k < length (live s) \/ k = length (live s))%nat).
-        { assert (k < length (live s ++ [cent pe]))%nat by (apply nth_error_Some; congruence).
-          rewrite app_length in H0. cbn [length] in H0. lia. }
-        destruct Hk as [Hk|Hk].
-        * rewrite nth_error_app1 in Hn by exact Hk.
-          destruct (live_nth s k e HI Hn) as (w0 & R0 & _ & Hb0 & E0 & _).
-          rewrite (Kt _ _ R0 E0) in R. injection R as <-.
-          rewrite (Jr _ _ _ Hn R0 Hb). rewrite map_app.
-          rewrite firstn_app_le; [reflexivity|]. rewrite map_length. lia.
-        * subst k. rewrite nth_error_app2, Nat.sub_diag in Hn by lia. injection Hn as <-.
-          cbn [cent ce_off] in R. rewrite Rw in R. injection R as <-.
-          rewrite (Hroot Hb). rewrite map_app.
-          rewrite firstn_app_le by (rewrite map_length; unfold lenN in Hll; lia).
-          rewrite <- Ja. rewrite firstn_firstn.
-          replace (Nat.min (N.to_nat (h_bltxid (r_hdr (w_rec w)))) (N.to_nat (s_inmem s)))
-            with (N.to_nat (h_bltxid (r_hdr (w_rec w)))) by lia.
-          reflexivity. }
+  { constructor; [|exact HW4].
+    destruct Hfx as [(El & Ei & Ea & _)|(pe & w & El & Ei & Hlen & Ea & Rw & Hwa & Hbl & Hroot & _)].
+    - rewrite El, Ei, Ea. exact Ja.
+    - pose proof (live_len s HI) as Hll.
+      rewrite Ei, Ea, El, map_app. cbn [map cent ce_alh].
+      rewrite firstn_all2.
+      + rewrite Ja. reflexivity.
+      + rewrite app_length, firstn_length. cbn [length]. unfold lenN in Hlen. lia. }
   destruct Hres as [-> | ->]; [exact HJ4|].
   destruct (may_commit_fx s4 HI4) as (El & Et & Ea & Ei & _).
-  apply (Inv2_transfer s4 _ HI4 HJ4 El Ei).
-  - rewrite Ea. reflexivity.
-  - apply tl_keep_same. exact Et.
+  constructor; [rewrite El, Ei, Ea; apply HJ4|rewrite Et; apply HJ4].
 Qed.
 
 (* ---- the other steps ---- *)
@@ -148,7 +234,7 @@ Lemma begin_vals_more s vals s0 (l : list N) :
    else let '(vl, sz, offs) := vlog_append (s_vlog s) (s_vsize s) vals in
         (upd_vlog s vl sz, map (fun o => enc_voff o) offs)) = (s0, l) ->
   s_aht s0 = s_aht s /\ s_wait s0 = s_wait s.
-Proof.
+Proof using H.
   destruct (c_embedded (s_cfg s)).
   - intros [= <- _]. auto.
   - destruct (vlog_append (s_vlog s) (s_vsize s) vals) as [[vl sz] offs]. intros [= <- _]. auto.
@@ -156,7 +242,7 @@ Qed.
 
 Lemma begin_more s c p exp sk :
   s_aht (fst (begin H s c p exp sk)) = s_aht s /\ s_wait (fst (begin H s c p exp sk)) = s_wait s.
-Proof.
+Proof using H.
   unfold begin.
   repeat match goal with
   | |- context [fst (if ?b then _ else _)] => destruct b
@@ -169,23 +255,19 @@ Proof.
 Qed.
 
 Lemma same_core_live s s' : same_core s' s -> live s' = live s.
-Proof. intros (_ & _ & E3 & E4 & _ & _ & _ & _ & E9). unfold live, clogC. rewrite E3, E4, E9. reflexivity. Qed.
+Proof using H. intros (_ & _ & E3 & E4 & _ & _ & _ & _ & E9). unfold live, clogC. rewrite E3, E4, E9. reflexivity. Qed.
 
-Lemma Inv2_same s s' : Inv s -> Inv2 s -> same_core s' s -> s_aht s' = s_aht s -> Inv2 s'.
+Lemma Inv2_same s s' : Inv2 s -> same_core s' s -> s_aht s' = s_aht s -> Inv2 s'.
 Proof.
-  intros HI HJ Hc Ea. pose proof (same_core_live _ _ Hc) as El.
+  intros [Ja Jw] Hc Ea. pose proof (same_core_live _ _ Hc) as El.
   destruct Hc as (_ & E2 & _ & _ & _ & E6 & _).
-  apply (Inv2_transfer s s' HI HJ El E6).
-  - rewrite Ea. reflexivity.
-  - apply tl_keep_same. exact E2.
+  constructor; [rewrite El, E6, Ea; exact Ja|rewrite E2; exact Jw].
 Qed.
 
 Lemma may_commit_inv2 s : Inv s -> Inv2 s -> Inv2 (fst (may_commit s)).
 Proof.
-  intros HI HJ. destruct (may_commit_fx s HI) as (El & Et & Ea & Ei & _).
-  apply (Inv2_transfer s _ HI HJ El Ei).
-  - rewrite Ea. reflexivity.
-  - apply tl_keep_same. exact Et.
+  intros HI [Ja Jw]. destruct (may_commit_fx s HI) as (El & Et & Ea & Ei & _).
+  constructor; [rewrite El, Ei, Ea; exact Ja|rewrite Et; exact Jw].
 Qed.
 
 Lemma discard_fx s n : Inv s ->
@@ -197,7 +279,7 @@ Lemma discard_fx s n : Inv s ->
               s_aht s' = firstn (N.to_nat (if lenN (s_aht s) <? s_inmem s + 1 - n
                                            then lenN (s_aht s) + 2 ^ 64 - (s_inmem s + 1 - n)
                                            else lenN (s_aht s) - (s_inmem s + 1 - n))) (s_aht s))).
-Proof.
+Proof using H.
   intros HI. cbn zeta. unfold discard.
   destruct (N.eqb_spec n 0) as [E0|N0]; [cbn [fst]; auto 10|].
   destruct (N.leb_spec n (s_committed s)) as [L1|L1]; [cbn [fst]; auto 10|].
@@ -240,33 +322,158 @@ Qed.
 Lemma discard_inv2 s n : Inv s -> Inv2 s -> Inv2 (fst (discard s n)).
 Proof.
   intros HI HJ. destruct (discard_fx s n HI) as (Et & _ & [(El & Ei & Ea)|(m & L1 & L2 & Em & El & Ei & Ea)]).
-  - apply (Inv2_transfer s _ HI HJ El Ei); [rewrite Ea; reflexivity|apply tl_keep_same; exact Et].
-  - pose proof HJ as [Ja Jr]. pose proof (live_len s HI) as Hll.
+  - pose proof HJ as [Ja Jw]. constructor; [rewrite El, Ei, Ea; exact Ja|rewrite Et; exact Jw].
+  - pose proof HJ as [Ja Jw]. pose proof (live_len s HI) as Hll.
     assert (Hahtlen : s_inmem s <= lenN (s_aht s)).
     { apply (f_equal (@length bytes)) in Ja. rewrite firstn_length, map_length in Ja. unfold lenN in *. lia. }
-    constructor.
-    + rewrite Ei, Ea, El. rewrite firstn_firstn.
-      destruct (N.ltb_spec (lenN (s_aht s)) (s_inmem s + 1 - n)); [lia|].
-      replace (Nat.min (N.to_nat (n - 1)) (N.to_nat (lenN (s_aht s) - (s_inmem s + 1 - n)))) with m by lia.
-      rewrite <- firstn_map, <- Ja, firstn_firstn. replace (Nat.min m (N.to_nat (s_inmem s))) with m by lia.
+    constructor; [|rewrite Et; exact Jw].
+    rewrite Ei, Ea, El. rewrite firstn_firstn.
+    destruct (N.ltb_spec (lenN (s_aht s)) (s_inmem s + 1 - n)); [lia|].
+    replace (Nat.min (N.to_nat (n - 1)) (N.to_nat (lenN (s_aht s) - (s_inmem s + 1 - n)))) with m by lia.
+    rewrite <- firstn_map, <- Ja, firstn_firstn. replace (Nat.min m (N.to_nat (s_inmem s))) with m by lia.
+    reflexivity.
+Qed.
+
+(* the Alh values of the committed transactions 1..n as a reader gets them *)
+Definition alhs (s : state) (n : N) : list bytes :=
+  map (fun k => match read_tx s k with Ok r => r_alh r | _ => [] end) (ids_upto n).
+
+Lemma firstn_succ_nth {A} (l : list A) j x : nth_error l j = Some x -> firstn (S j) l = firstn j l ++ [x].
+Proof using H.
+  revert j; induction l as [|a l IH]; intros [|j] Hn; try discriminate.
+  - injection Hn as ->. reflexivity.
+  - cbn [nth_error] in Hn. rewrite !firstn_cons. rewrite (IH _ Hn). reflexivity.
+Qed.
+
+Lemma live_committed_nth s j : Inv s -> (j < N.to_nat (s_committed s))%nat ->
+  nth_error (live s) j = nth_error (clogC s) j.
+Proof using H.
+  intros HI L. unfold live. apply nth_error_app1.
+  pose proof HI as []. pose proof (clogC_len s i_clen) as HC. unfold lenN in HC. lia.
+Qed.
+
+Lemma alhs_spec s : Inv s -> forall n : nat, N.of_nat n <= s_committed s ->
+  alhs s (N.of_nat n) = firstn n (map ce_alh (live s)).
+Proof using H.
+  intros HI. induction n as [|n IH]; intros L.
+  - reflexivity.
+  - unfold alhs, ids_upto in *. rewrite Nnat.Nat2N.id in *.
+    rewrite seq_S, !map_app. cbn [map plus]. rewrite IH by lia.
+    destruct (read_tx_spec H s (N.of_nat n + 1) HI ltac:(lia) ltac:(lia))
+      as (e & w & Hn & (_ & _ & _ & _ & Ha) & -> & _).
+    replace (N.to_nat (N.of_nat n + 1 - 1)) with n in Hn by lia.
+    rewrite <- live_committed_nth in Hn by (auto; lia).
+    rewrite (firstn_succ_nth _ n (ce_alh e)); [rewrite Ha; reflexivity|].
+    rewrite nth_error_map, Hn. reflexivity.
+Qed.
+
+(* ---- Close + OpenWith (fixed: the tree is reset to the committed transactions and rebuilt) ---- *)
+Lemma read_tx_pre_spec s k : Inv s -> s_committed s < k -> k <= s_inmem s ->
+  exists pe r, nth_error (pb_list (s_buf s)) (N.to_nat (k - s_committed s - 1)) = Some pe /\
+               read_tx_pre s k = Ok r /\ alh_of H (r_hdr r) = Ok (pe_alh pe).
+Proof.
+  intros HI L1 L2. pose proof HI as [].
+  assert (HC : lenN (clogC s) = s_committed s) by (apply clogC_len; auto).
+  destruct (nth_error (pb_list (s_buf s)) (N.to_nat (k - s_committed s - 1))) as [pe|] eqn:Hn.
+  2:{ apply nth_error_None in Hn. unfold lenN in *. lia. }
+  assert (Hl : nth_error (live s) (N.to_nat (k - 1)) = Some (cent pe)).
+  { unfold live. rewrite nth_error_app2 by (unfold lenN in HC; lia).
+    replace (N.to_nat (k - 1) - length (clogC s))%nat with (N.to_nat (k - s_committed s - 1))
+      by (unfold lenN in HC; lia).
+    rewrite nth_error_map, Hn. reflexivity. }
+  destruct (chain_nth H _ _ _ _ _ _ _ _ i_chainB Hl) as (w & (R & Es & _ & _ & Ha) & _).
+  exists pe, (w_rec w). split; [reflexivity|].
+  assert (Hwf : wr_wf H w).
+  { apply tl_read_some in R. destruct R as [_ Hin]. eapply Forall_forall in i_wf; eauto. }
+  split.
+  - unfold read_tx_pre.
+    destruct (N.eqb_spec k 0); [lia|]. destruct (N.ltb_spec (s_inmem s) k); [lia|]. cbn [orb].
+    destruct (N.leb_spec k (s_committed s)); [lia|].
+    rewrite (pb_read_ahead_spec _ _ i_buf_ok), Hn. cbn [bind].
+    unfold read_at. cbn [cent ce_off ce_size] in R, Es. rewrite R, Es, N.eqb_refl. reflexivity.
+  - destruct Hwf as [Hw _]. rewrite Hw. cbn [cent ce_alh] in Ha. rewrite Ha. reflexivity.
+Qed.
+
+Lemma relink_spec s : Inv s -> forall fuel a k prev a',
+  s_committed s < k -> relink H fuel s a k prev = Ok a' ->
+  a' = a ++ map pe_alh (firstn fuel (skipn (N.to_nat (k - s_committed s - 1)) (pb_list (s_buf s)))).
+Proof.
+  intros HI. pose proof HI as [].
+  induction fuel as [|f IH]; intros a k prev a' Lk; cbn [relink].
+  - intros [= <-]. cbn [firstn map]. rewrite app_nil_r. reflexivity.
+  - destruct (N.ltb_spec (s_inmem s) k) as [Lo|Lo].
+    + intros [= <-]. rewrite skipn_all2 by (unfold lenN in *; lia).
+      rewrite firstn_nil. cbn [map]. rewrite app_nil_r. reflexivity.
+    + destruct (read_tx_pre_spec s k HI Lk Lo) as (pe & r & Hn & -> & Ea). cbn [bind].
+      destruct (match prev with Some a0 => _ | None => false end); [discriminate|].
+      rewrite Ea. cbn [bind]. intros E. apply IH in E; [|lia]. rewrite E.
+      rewrite (skipn_nth_cons _ _ _ Hn). cbn [firstn map]. rewrite <- app_assoc. cbn [app].
+      replace (N.to_nat (k + 1 - s_committed s - 1)) with (S (N.to_nat (k - s_committed s - 1))) by lia.
       reflexivity.
-    + intros k e w Hn R Hb. rewrite El in Hn |- *. rewrite Et in R.
-      assert (Hk : (k < m)%nat).
-      { assert (k < length (firstn m (live s)))%nat by (apply nth_error_Some; congruence).
-        rewrite firstn_length in H0. lia. }
-      rewrite nth_error_firstn' in Hn by exact Hk.
-      destruct (live_nth s k e HI Hn) as (w0 & R0 & _ & Hb0 & _).
-      rewrite R0 in R. injection R as <-.
-      rewrite (Jr _ _ _ Hn R0 Hb). rewrite <- firstn_map, firstn_firstn.
-      replace (Nat.min (N.to_nat (h_bltxid (r_hdr (w_rec w0)))) m) with (N.to_nat (h_bltxid (r_hdr (w_rec w0)))) by lia.
-      reflexivity.
+Qed.
+
+(* a reopen at which the commit log holds nothing beyond the committed transactions (no commit loop
+   that stopped midway has left entries behind: the situation of the known finding "reopen commits more") *)
+Lemma reopen_inv2 s : Inv s -> Inv2 s -> lenN (s_clog s) = s_committed s -> Inv2 (fst (reopen H s)).
+Proof.
+  intros HI HJ Hclean. pose proof HJ as [Ja Jw]. unfold reopen.
+  destruct (reopen_r0 H s) as [[calh ctls]|e|] eqn:E0; [|exact HJ|exact HJ].
+  destruct (reload H _ _ _ _ _ _) as [[[[b pid] palh] ptls]|e|] eqn:ER; [|exact HJ|exact HJ].
+  pose proof (reopen_state_inv H s _ _ _ _ _ _ HI E0 ER) as HI1.
+  set (s1 := reopen_state s calh b pid palh ptls) in *.
+  pose proof HI as [? ? Hclen ? ? ? Hinm ? ? ?].
+  assert (Hahtlen : s_inmem s <= lenN (s_aht s)).
+  { apply (f_equal (@length bytes)) in Ja. rewrite firstn_length, map_length in Ja.
+    pose proof (live_len s HI). unfold lenN in *. lia. }
+  (* the reset tree holds exactly the Alh of the committed transactions *)
+  assert (HclogC : clogC s1 = s_clog s).
+  { unfold clogC, s1, reopen_state. sp. apply firstn_all2. unfold lenN. lia. }
+  assert (HCeq : clogC s = s_clog s).
+  { unfold clogC. apply firstn_all2. unfold lenN in Hclean. lia. }
+  match goal with |- context [lenN ?a1' =? pid] => set (a1 := a1') in * end.
+  assert (Ha1 : a1 = map ce_alh (s_clog s)).
+  { assert (Hc : firstn (N.to_nat (s_committed s)) (s_aht s) = map ce_alh (s_clog s)).
+    { transitivity (firstn (N.to_nat (s_committed s)) (firstn (N.to_nat (s_inmem s)) (s_aht s))).
+      - rewrite firstn_firstn. f_equal. lia.
+      - rewrite Ja. unfold live. rewrite HCeq, map_app.
+        rewrite firstn_app_le by (rewrite map_length; unfold lenN in Hclean; lia).
+        rewrite firstn_all2 by (rewrite map_length; unfold lenN in Hclean; lia). reflexivity. }
+    unfold a1, s1, reopen_state. sp. rewrite Hclean.
+    destruct (N.ltb_spec (s_committed s) (lenN (s_aht s))) as [L|L]; [exact Hc|].
+    rewrite <- Hc. symmetry. apply firstn_all2. unfold lenN in *. lia. }
+  assert (Hlen1 : lenN a1 = s_committed s1).
+  { rewrite Ha1, lenN_map. reflexivity. }
+  assert (Hpid : s_inmem s1 = s_committed s1 + lenN (pb_list (s_buf s1))) by (pose proof HI1 as []; auto).
+  assert (Hlive1 : live s1 = s_clog s ++ map cent (pb_list (s_buf s1))) by (unfold live; rewrite HclogC; reflexivity).
+  assert (Hmapcent : forall l, map ce_alh (map cent l) = map pe_alh l).
+  { intros l. rewrite map_map. reflexivity. }
+  destruct (N.eqb_spec (lenN a1) pid) as [Ep|Np].
+  - (* nothing precommitted was reloaded *)
+    cbn [fst]. constructor; [|exact Jw].
+    change (s_inmem (upd_aht s1 a1)) with (s_inmem s1). change (s_aht (upd_aht s1 a1)) with a1.
+    change (live (upd_aht s1 a1)) with (live s1).
+    change (s_inmem s1) with pid in *. rewrite Hlive1.
+    assert (pb_list (s_buf s1) = []).
+    { destruct (pb_list (s_buf s1)) as [|x l]; [reflexivity|]. rewrite lenN_cons in Hpid. lia. }
+    rewrite H0. cbn [map]. rewrite app_nil_r, <- Ha1. apply firstn_all2. unfold lenN in Ep. lia.
+  - destruct (relink H _ s1 a1 _ None) as [a|e|] eqn:ERl; [|exact HJ|exact HJ].
+    cbn [fst]. constructor; [|exact Jw].
+    change (s_inmem (upd_aht s1 a)) with (s_inmem s1). change (s_aht (upd_aht s1 a)) with a.
+    change (live (upd_aht s1 a)) with (live s1).
+    apply (relink_spec s1 HI1) in ERl; [|lia].
+    rewrite ERl, Hlive1, map_app, Hmapcent, <- Ha1.
+    replace (N.to_nat (lenN a1 + 1 - s_committed s1 - 1)) with 0%nat by lia. cbn [skipn].
+    change (s_inmem s1) with pid in *.
+    rewrite firstn_all2 with (l := pb_list (s_buf s1)) by (unfold lenN in *; lia).
+    apply firstn_all2. rewrite app_length, map_length. unfold lenN in *. lia.
 Qed.
 
 Definition is_reopen (o : op) : bool := match o with OReopen => true | _ => false end.
 
-Lemma step_inv2 s o : is_reopen o = false -> Inv s -> Inv2 s -> Inv2 (fst (step H s o)).
+Lemma step_inv2 s o : (is_reopen o = true -> lenN (s_clog s) = s_committed s) ->
+  Inv s -> Inv2 s -> Inv2 (fst (step H s o)).
 Proof.
-  intros Hno HI HJ. destruct o; cbn [step]; try discriminate.
+  intros Hclean HI HJ. destruct o; cbn [step].
   - destruct (begin_more s c p exp skipic) as [Ea _]. eapply Inv2_same; eauto. apply begin_core.
   - apply locked_inv2; auto.
   - unfold sync. destruct (s_inmem s =? s_committed s); [exact HJ|].
@@ -280,64 +487,52 @@ Proof.
     apply may_commit_inv2; [eapply Inv_same_core; eauto|exact HJ1].
   - apply discard_inv2; auto.
   - unfold set_ext. cbn [fst]. eapply Inv2_same; eauto. repeat split.
+  - apply reopen_inv2; auto.
 Qed.
 
-Lemma run_inv2 ops : forall s,
-  existsb is_reopen ops = false -> Inv s -> Inv2 s -> Inv2 (run H s ops).
+(* every reopen of the run happens with no commit-log entries beyond the committed id *)
+Fixpoint reopens_clean (s : state) (ops : list op) : Prop :=
+  match ops with
+  | [] => True
+  | o :: r => (is_reopen o = true -> lenN (s_clog s) = s_committed s) /\ reopens_clean (fst (step H s o)) r
+  end.
+
+Lemma run_inv2 ops : forall s, reopens_clean s ops -> Inv s -> Inv2 s -> Inv2 (run H s ops).
 Proof.
-  induction ops as [|o ops IH]; intros s Hno HI HJ; [exact HJ|].
-  cbn [existsb] in Hno. apply orb_false_iff in Hno. destruct Hno as [Ho Hops].
-  cbn [run fold_left]. apply IH; auto.
+  induction ops as [|o ops IH]; intros s Hc HI HJ; [exact HJ|].
+  destruct Hc as [Ho Hr]. cbn [run fold_left]. apply IH; auto.
   - apply step_inv; auto.
   - apply step_inv2; auto.
 Qed.
 
-(* the Alh values of the committed transactions 1..n as a reader gets them *)
-Definition alhs (s : state) (n : N) : list bytes :=
-  map (fun k => match read_tx s k with Ok r => r_alh r | _ => [] end) (ids_upto n).
-
-Lemma firstn_succ_nth {A} (l : list A) j x : nth_error l j = Some x -> firstn (S j) l = firstn j l ++ [x].
-Proof.
-  revert j; induction l as [|a l IH]; intros [|j] Hn; try discriminate.
-  - injection Hn as ->. reflexivity.
-  - cbn [nth_error] in Hn. rewrite !firstn_cons. rewrite (IH _ Hn). reflexivity.
-Qed.
-
-Lemma live_committed_nth s j : Inv s -> (j < N.to_nat (s_committed s))%nat ->
-  nth_error (live s) j = nth_error (clogC s) j.
-Proof.
-  intros HI L. unfold live. apply nth_error_app1.
-  pose proof HI as []. pose proof (clogC_len s i_clen) as HC. unfold lenN in HC. lia.
-Qed.
-
-Lemma alhs_spec s : Inv s -> forall n : nat, N.of_nat n <= s_committed s ->
-  alhs s (N.of_nat n) = firstn n (map ce_alh (live s)).
-Proof.
-  intros HI. induction n as [|n IH]; intros L.
-  - reflexivity.
-  - unfold alhs, ids_upto in *. rewrite Nnat.Nat2N.id in *.
-    rewrite seq_S, !map_app. cbn [map plus]. rewrite IH by lia.
-    destruct (read_tx_spec H s (N.of_nat n + 1) HI ltac:(lia) ltac:(lia))
-      as (e & w & Hn & (_ & _ & _ & _ & Ha) & -> & _).
-    replace (N.to_nat (N.of_nat n + 1 - 1)) with n in Hn by lia.
-    rewrite <- live_committed_nth in Hn by (auto; lia).
-    rewrite (firstn_succ_nth _ n (ce_alh e)); [rewrite Ha; reflexivity|].
-    rewrite nth_error_map, Hn. reflexivity.
-Qed.
-
 Lemma blroot_lemma s k r : Inv s -> Inv2 s -> 1 <= k -> k <= s_committed s -> read_tx s k = Ok r ->
   0 < h_bltxid (r_hdr r) ->
-  h_blroot (r_hdr r) = mth H (alhs s (h_bltxid (r_hdr r))).
+  h_blroot (r_hdr r) = mth H (alhs s (h_bltxid (r_hdr r))) \/ Collision H.
 Proof.
-  intros HI [Ja Jr] K1 K2 R Hb.
-  destruct (read_tx_spec H s k HI K1 K2) as (e & w & Hn & (Rw & _) & R' & (_ & Hbl) & _).
+  intros HI [Ja Jw] K1 K2 R Hb.
+  destruct (read_tx_spec H s k HI K1 K2) as (e & w & Hn & (Rw & _) & R' & _ & _).
   rewrite R in R'. injection R' as ->.
   rewrite <- live_committed_nth in Hn by (auto; lia).
-  rewrite (Jr _ _ _ Hn Rw Hb).
-  destruct (live_nth s _ e HI Hn) as (w0 & R0 & Hid & Hb0 & _).
+  destruct (live_nth s _ e HI Hn) as (w0 & R0 & Hid & Hb0 & _ & _ & Hp & _).
   rewrite Rw in R0. injection R0 as <-.
-  rewrite <- (N2Nat.id (h_bltxid (r_hdr (w_rec w)))) at 2.
-  rewrite alhs_spec by (auto; lia). reflexivity.
+  assert (Hin : In w (s_txlog s)) by (apply tl_read_some in Rw; tauto).
+  eapply Forall_forall in Jw; eauto.
+  set (c := map ce_alh (firstn (N.to_nat (k - 1)) (live s))).
+  assert (Hkl : (N.to_nat (k - 1) < length (live s))%nat) by (apply nth_error_Some; congruence).
+  assert (Hclen : length c = N.to_nat (k - 1)).
+  { unfold c. rewrite map_length, firstn_length. lia. }
+  destruct (Jw Hb c) as [E|C]; [| | | |right; exact C].
+  - unfold c. rewrite <- firstn_map. apply linked_firstn. apply live_linked; auto.
+  - rewrite Hclen, Hid. lia.
+  - rewrite Hp, Hclen. unfold c. rewrite <- firstn_map.
+    rewrite prev_of_firstn by lia. symmetry. apply last_alh_prev_of; [reflexivity|lia].
+  - left. rewrite E. unfold c. rewrite <- firstn_map, firstn_firstn.
+    replace (Nat.min (N.to_nat (h_bltxid (r_hdr (w_rec w)))) (N.to_nat (k - 1)))
+      with (N.to_nat (h_bltxid (r_hdr (w_rec w)))) by lia.
+    f_equal. symmetry.
+    replace (alhs s (h_bltxid (r_hdr (w_rec w))))
+      with (alhs s (N.of_nat (N.to_nat (h_bltxid (r_hdr (w_rec w)))))) by (rewrite N2Nat.id; reflexivity).
+    apply alhs_spec; auto. lia.
 Qed.
 
 (* ---- waiting commit calls ---- *)
@@ -346,16 +541,16 @@ Definition Inv3 (s : state) : Prop :=
   1 <= id /\ exists e, nth_error (live s) (N.to_nat (id - 1)) = Some e /\ ce_alh e = alh.
 
 Lemma Inv3_transfer s s' : Inv3 s -> live s' = live s -> s_wait s' = s_wait s -> Inv3 s'.
-Proof. intros HW El Ew id alh Hin. rewrite Ew in Hin. rewrite El. apply HW. exact Hin. Qed.
+Proof using H. intros HW El Ew id alh Hin. rewrite Ew in Hin. rewrite El. apply HW. exact Hin. Qed.
 
 Definition is_discard (o : op) : bool := match o with ODiscard _ => true | _ => false end.
 
 Lemma step_inv3 s o : is_discard o = false -> Inv s -> Inv3 s -> Inv3 (fst (step H s o)).
-Proof.
+Proof using H.
   intros Hno HI HW. destruct o; cbn [step]; try discriminate.
   - destruct (begin_more s c p exp skipic) as [_ Ew].
     apply (Inv3_transfer s _ HW); [apply same_core_live; apply begin_core|exact Ew].
-  - destruct (locked_cases H s c stale HI) as (s4 & HI4 & _ & _ & Hres & _ & Hfx).
+  - destruct (locked_cases H s c HI) as (s4 & HI4 & _ & _ & Hres & _ & Hfx & _).
     assert (HW4 : Inv3 s4).
     { destruct Hfx as [(El & _ & _ & Ew)|(pe & w & El & Ei & _ & _ & _ & _ & _ & _ & Hw)].
       - apply (Inv3_transfer s _ HW El Ew).
@@ -393,7 +588,7 @@ Proof.
 Qed.
 
 Lemma run_inv3 ops : forall s, existsb is_discard ops = false -> Inv s -> Inv3 s -> Inv3 (run H s ops).
-Proof.
+Proof using H.
   induction ops as [|o ops IH]; intros s Hno HI HW; [exact HW|].
   cbn [existsb] in Hno. apply orb_false_iff in Hno. destruct Hno as [Ho Hops].
   cbn [run fold_left]. apply IH; auto.
@@ -403,8 +598,8 @@ Qed.
 
 Lemma ack_lemma s id alh : Inv s -> Inv3 s -> In (id, alh) (acked s) ->
   exists r, read_tx s id = Ok r /\ r_alh r = alh.
-Proof.
-  intros HI HW Hin. unfold acked in Hin. apply filter_In in Hin. destruct Hin as [Hin Hc].
+Proof using H.
+  clear H_len. intros HI HW Hin. unfold acked in Hin. apply filter_In in Hin. destruct Hin as [Hin Hc].
   cbn [fst] in Hc. apply N.leb_le in Hc.
   destruct (HW _ _ Hin) as (L & e & Hn & Ea).
   destruct (read_tx_spec H s id HI L Hc) as (e' & w & Hn' & (_ & _ & _ & _ & Ha) & R & _).
